@@ -298,3 +298,20 @@ PROPS['C14'] = {
     'exhaustive_scope': "byte-at-index x precision for the listed N; not all 256^N contents (every byte value occurs at every index, not every combination of neighbours)",
     'assumptions': COMMON_ASSUME + ["faster-hex 0.10 from the offline cargo cache; CPU feature dispatch inside faster-hex follows this machine's CPU (AVX2/SSE4.1 paths as detected at run time)"],
 }
+
+import c12 as _c12
+PROPS['C12'] = {
+    'level': 'exploration',
+    'technique': 'bounded exhaustive enumeration of a generated accept/reject program family; each program is executed by rustc (type checker + borrow checker) against the crate built from the working tree and judged by a reference model of the length / auto-trait / borrow rules',
+    'parts': [_c12.part()],
+    'rule': ("generated family, every reject program paired with an accept twin differing in one length, bound or lifetime: (a) two-length relations for all lengths 0..=6 (thorough 0..=9 + boundary lengths): zip x3 forms, ==, <, cmp (N == M); split::<K> annotated (K <= N and R == N-K, "
+             "owned and &); concat (R == N+M); append/prepend (R == N+1); pop_back/pop_front/remove/swap_remove (N >= 1, R == N-1); into_array, from_array, From both ways, AsRef/AsMut<[T;U]>, From<&[T;U]>/From<&mut [T;U]>, from_chunks(_mut), into_chunks(_mut) incl. "
+             "turbofish forms (U == N); tuple conversions arity 1..=13 (arity == N <= 12); flatten (R == N*M, owned and &); unflatten (N >= 1, R == floor(NM/N)); map/zip/generate result annotations; arr! list and both repeat forms against an annotated length; {:x} only for u8; "
+             "(b) length kinds: P1/N1/Z0/B1/usize/user types with unsafe impl ArrayLength rejected; (c) auto traits: {array, by-value iterator, &array, Box<array>} x {Send,Sync,Copy,Clone} x T in {u8,String,Rc,Cell,*const u8,MutexGuard} x N in {0,1,2,3,6}; "
+             "(d) for 25 reference-returning APIs (shared and mutable forms): source mutated / moved while the view is live, view outliving its source, two mutable views live, mutable + shared live, and for 46 signatures the view widened to 'static or to an unrelated lifetime. "
+             "A reject counts only if rustc fails it with an error code of its expected class; a reject that compiles or an accept that fails is a violation. Non-trivial = reject programs."),
+    'exhaustive': True,
+    'exhaustive_scope': 'the generated grammar at the stated length bound; not all programs',
+    'assumptions': COMMON_ASSUME + ["verdict attribution: each program is one module in a corpus crate; a diagnostic belongs to the program whose line range contains its primary span (followed through macro expansions); "
+                                    "type-level and borrow-check families are compiled as separate crates, and the thorough tier recompiles every reject program alone to exclude masking"],
+}
